@@ -15,7 +15,7 @@ TRUSTED = ["theorem equilibrium_solves_augmented (Proofs/CertProofs.v, with b = 
 ASSUMPTIONS = ["tolerance implied by the three-decimal rounding of the right-hand side of the system the back-end receives (the augmented system; for 'lsq_linear' "
                "the bordered normal system, whose right-hand side M^T b is what is rounded): 2 * |pinv(that matrix)|_inf * 5e-4 (x10 for method='lsq'; "
                "plus 1e-4 / sigma_min for 'lsq_linear', the residual scipy may leave at termination)"]
-TESTED_NOT_PROVED = ["the end-to-end recovery is evaluated by the oracle; the rounding perturbation bound is used as a tolerance, not proved"]
+TESTED_NOT_PROVED = ["the end-to-end recovery is evaluated by the oracle; the rounding perturbation bound it uses as tolerance is theorem C03_rounded_rhs_moves_a_linear_solution_by_at_most for a solution that is linear in the right-hand side (exact rounding; numpy's binary64 rounding adds an ulp), the factor for the iterative back-ends is measured"]
 IMPORTS = "From Forsys Require Import Model.CaseUtil.\n"
 
 
